@@ -154,6 +154,9 @@ def act_specs(rng, want):
     return ("quantized_relu", dict(bits=b, integer=int(rng.choice([0, 1, min(2, b)]))))
   if want == "relu11":
     return ("quantized_relu", dict(bits=1, integer=1))
+  if want == "relu1":
+    # a ONE-bit relu whose `integer` is not 1: two levels {0, 2^(integer-1)} — only (1, 1) is the 0/1 "and-gate" operand
+    return ("quantized_relu", dict(bits=1, integer=int(rng.choice([0, 2, 3]))))
   if want == "bits":
     return qb(int(rng.choice([2, 3, 4])), int(rng.choice([0, 1])), symmetric=int(rng.integers(0, 2)), alpha=None)
   if want == "ternary":
@@ -464,6 +467,44 @@ def gen_specs(rng, tier):
                         layers=[dict(w="fixed40", b=["none", "fixed40"][k % 2], act=None, act_mode=None,
                                      signs=SIGN_PATTERNS[k % len(SIGN_PATTERNS)] + "/flip")]))
       k += 1
+  # (g) ONE-BIT quantized_relu activations / kernels (strengthening round, seed C18-11).  convert_qkeras_quantizer classifies
+  #     quantized_relu(1, 1) — levels {0, 1} — as the 0/1 operand (mode 4, AndGate, product as wide as the other operand);
+  #     every other 1-bit relu has the levels {0, 2^(integer-1)} (1/2, 2, 4): the product needs one more fraction / integer
+  #     bit.  Every `integer` in 0..3 x kernel class x family, as QActivation in front of the layer, as the activation of a
+  #     first layer feeding a second one (attribute and separate layer), and as KERNEL quantizer; the source reaches 7.875 so
+  #     that every level is emitted, and ONE-HOT inputs (a single element on) expose each single product w * level.
+  r1w = ["fixed40", "fixed", "po2_4", "fixed40", "ternary", "fixed", "fixed40", "po2"]
+  k = off                 # (no further draw here: the models of the older streams keep their per-seed weights / shapes)
+  for i, integer in enumerate([0, 2, 3, 1, 0, 2, 0, 2]):
+    specs.append(dict(stream="relu_1bit", family=fams[(i + k) % 4], pre=("quantized_relu", dict(bits=1, integer=integer)),
+                      src=("s", 6, 3), one_hot=True, cin=1 + i % 2, n_in=[3, 2, 4][i % 3],
+                      layers=[dict(w=r1w[i], b=biases[i % 3], act=None, act_mode=None, dm=1)]))
+  for i, integer in enumerate([0, 2, 3]):
+    specs.append(dict(stream="relu_1bit_chain", family=fams[(i + k + 1) % 4], pre=[None, "bits", "relu"][i], src=("s", 6, 3),
+                      one_hot=True, flatten_between=True, cin=1,
+                      layers=[dict(w=["fixed40", "fixed", "fixed40"][i], b=biases[(i + 1) % 3],
+                                   act=("quantized_relu", dict(bits=1, integer=integer)), act_mode=["attr", "layer", "attr"][i], dm=1),
+                              dict(w=["fixed40", "fixed40", "fixed"][i], b=biases[i % 3], act=None, act_mode=None, kind="dense")]))
+  for i, integer in enumerate([0, 2]):
+    specs.append(dict(stream="relu_1bit_kernel", family=fams[(i + k) % 4], pre=[None, "bits"][i], one_hot=True,
+                      layers=[dict(w=("quantized_relu", dict(bits=1, integer=integer)), b=biases[i % 3], act=None, act_mode=None,
+                                   dm=1)]))
+  # (h) GROUPED convolutions (strengthening round, seed C18-12): `groups` > 1 — the Keras kernel is (k.., cin / groups, filters),
+  #     its axis -2 is ALREADY the per-group fan-in, every output channel sums k.. * cin / groups products.  Fan-ins that are a
+  #     power of two (tight accumulator) and not, cin / groups = 1 (depthwise-like) and > 1, saturated kernels (all most
+  #     negative / all largest code) under all-max / all-min inputs, and random kernels; QConv1D and QConv2D.
+  grp = [("conv2d", 4, 2, 2, (1, 1)), ("conv2d", 8, 2, 4, (1, 1)), ("conv1d", 4, 2, 2, (1, 1)), ("conv2d", 8, 4, 4, (1, 2)),
+         ("conv1d", 6, 3, 3, (2, 1)), ("conv2d", 6, 2, 2, (2, 2)), ("conv1d", 8, 2, 2, (1, 1)), ("conv2d", 4, 4, 4, (2, 1)),
+         ("conv1d", 8, 4, 8, (1, 1)), ("conv2d", 8, 2, 2, (1, 1))]
+  graw = ["allmin", "allmax", "allmin", "random", "allmax", "allmin", "random", "allmin", "allmax", "random"]
+  gwk = ["fixed40", "fixed40", "fixed", "fixed", "fixed40", "ternary", "po2", "fixed40", "fixed", "fixed40"]
+  k = off % 3
+  for i, (fam, cin, groups, filters, ks) in enumerate(grp):
+    specs.append(dict(stream="grouped", family=fam, pre=[None, "bits", "relu"][(i + k) % 3], cin=cin, ksize=ks,
+                      # (a bias adder adds one integer bit of head-room: the saturated kernels come without bias so that
+                      #  the kernel accumulator itself is tight)
+                      layers=[dict(w=gwk[i], b="none" if (graw[i] != "random" and i != 4) else biases[(i + k) % 3], act=None,
+                                   act_mode=None, groups=groups, filters=filters, raw=graw[i])]))
   return specs
 
 
@@ -731,18 +772,20 @@ def build(rng, spec, idx):
         wspec, kq, aspec, act_obj = shared["wspec"], shared["kq"], shared["aspec"], shared["act"]
     attr_act = act_obj if (aspec is not None and ls.get("act_mode") == "attr") else None
     common = dict(use_bias=has_bias, bias_quantizer=mk(bq_spec), activation=attr_act, name=next(names))
+    groups = int(ls.get("groups", 1)) if kind in ("conv1d", "conv2d") else 1
+    grp_kw = dict(groups=groups) if groups > 1 else {}      # the argument is only passed when it is used
     if kind == "dense":
       if len(x.shape) > 2:
         x = add_pass(x, "flatten")
       lyr = QDense(ls.get("units", int(rng.choice([1, 2, 3]))), kernel_quantizer=kq, **common)
       cls = "QDense"
     elif kind == "conv1d":
-      lyr = QConv1D(int(rng.choice([1, 2, 3])), kh, kernel_quantizer=kq, padding=geom["padding"],
-                    strides=geom["strides"], dilation_rate=geom["dilation"], **common)
+      lyr = QConv1D(ls.get("filters") or int(rng.choice([1, 2, 3])), kh, kernel_quantizer=kq, padding=geom["padding"],
+                    strides=geom["strides"], dilation_rate=geom["dilation"], **grp_kw, **common)
       cls = "QConv1D"
     elif kind == "conv2d":
-      lyr = QConv2D(int(rng.choice([1, 2, 5])), (kh, kw_), kernel_quantizer=kq, padding=geom["padding"],
-                    strides=geom["strides"], dilation_rate=geom["dilation"], **common)
+      lyr = QConv2D(ls.get("filters") or int(rng.choice([1, 2, 5])), (kh, kw_), kernel_quantizer=kq, padding=geom["padding"],
+                    strides=geom["strides"], dilation_rate=geom["dilation"], **grp_kw, **common)
       cls = "QConv2D"
     else:
       lyr = QDepthwiseConv2D((kh, kw_), depth_multiplier=ls.get("dm", int(rng.choice([1, 1, 2]))),
@@ -755,7 +798,8 @@ def build(rng, spec, idx):
               aspec=aspec if attr_act is not None else None,
               raw=ls.get("raw", "random"), braw=ls.get("braw", "random"), below_top=ls.get("below_top", 0),
               wkind=ls["w"] if isinstance(ls["w"], str) else ls["w"][0], set_w=ls.get("set_w"),
-              geom=geom if kind == fam else dict(padding="valid", strides=1, dilation=1), signs=ls.get("signs"))
+              geom=geom if kind == fam else dict(padding="valid", strides=1, dilation=1), signs=ls.get("signs"),
+              groups=groups)
     b.items.append(it)
     b.nodes.append(None)      # filled after the weights are known (kernel shape, auto_po2 scales)
     if aspec is not None and attr_act is None:
@@ -814,6 +858,16 @@ def inputs_for(rng, b, first_kernel):
       tags.append("aligned")
       xs.append(np.where(sgn > 0, lo * step, hi * step))
       tags.append("anti-aligned")
+  if b.spec.get("one_hot"):
+    # a single element at the top of the source lattice, every other at its bottom (or 0 when that is a lattice point):
+    # each product w * (one activation level) shows up on its own
+    n = int(np.prod(shp))
+    off_v = 0.0 if lo <= 0 <= hi else lo * step
+    for j in sorted(set(list(range(min(n, 6))) + [n - 1])):
+      v = np.full(shp, off_v)
+      v.flat[j] = hi * step
+      xs.append(v)
+      tags.append("one-hot")
   for _ in range(3):
     xs.append(rng.integers(lo, hi + 1, size=shp) * step)
     tags.append("random")
@@ -837,6 +891,19 @@ def eff_weights(lyr):
   if lyr.use_bias:
     bias = qs[1](tf.convert_to_tensor(vars_[1])).numpy() if qs[1] is not None else vars_[1].numpy()
   return k, bias
+
+
+def expand_groups(k, groups):
+  """the dense-convolution kernel (k.., cin, filters) equivalent to a grouped kernel (k.., cin / groups, filters): zeros
+  outside the group of each output channel"""
+  if groups <= 1:
+    return k
+  ci, fo = k.shape[-2], k.shape[-1] // groups
+  full = np.zeros(k.shape[:-2] + (ci * groups, k.shape[-1]), dtype=k.dtype)
+  for o in range(k.shape[-1]):
+    g = o // fo
+    full[..., g * ci:(g + 1) * ci, o] = k[..., o]
+  return full
 
 
 def run_layers(b, x):
@@ -870,7 +937,17 @@ def ref_preact(it, k, bias):
   cls = it["cls"]
   g = it.get("geom") or dict(padding="valid", strides=1, dilation=1)
   pad, st, dil = g["padding"].upper(), int(g["strides"]), int(g["dilation"])
-  if cls == "QDense":
+  groups = int(it.get("groups", 1) or 1)
+  if groups > 1:
+    # grouped convolution written out: group g maps input channels [g*ci, (g+1)*ci) to output channels [g*fo, (g+1)*fo)
+    ci, fo = int(kk.shape[-2]), int(kk.shape[-1]) // groups
+    if pad == "CAUSAL":
+      x = tf.pad(x, [[0, 0], [dil * (int(kk.shape[0]) - 1), 0], [0, 0]])
+      pad = "VALID"
+    conv = ((lambda a, w: tf.nn.conv1d(a, w, stride=st, padding=pad, dilations=dil)) if cls == "QConv1D" else
+            (lambda a, w: tf.nn.conv2d(a, w, strides=st, padding=pad, dilations=dil)))
+    y = tf.concat([conv(x[..., g * ci:(g + 1) * ci], kk[..., g * fo:(g + 1) * fo]) for g in range(groups)], axis=-1)
+  elif cls == "QDense":
     y = tf.matmul(x, kk)
   elif cls == "QConv1D":
     if pad == "CAUSAL":
@@ -961,7 +1038,11 @@ def run(run: core.Run, tier: str):
       "numpy-scalar / int forms), every other estimator model additionally for two zero-excluding ranges; measured on the "
       "exact worst-case corner of every output element (from the real layer's impulse responses); "
       "analyze_accumulator_from_sample(conservative and sampled) on batches whose first sample spans / does not span the batch range, "
-      "with one and with two quantized layers; inputs: all-max, all-min, sign-aligned and anti-aligned with "
+      "with one and with two quantized layers; ONE-BIT quantized_relu (integer 0..3; only (1,1) is the 0/1 and-gate operand) "
+      "as QActivation, as activation of a first layer (attribute / separate layer) and as kernel quantizer, with one-hot "
+      "inputs; GROUPED QConv1D / QConv2D (groups 2, 3, 4; cin / groups = 1 and > 1; fan-in a power of two and not; kernels "
+      "saturated at the most negative / largest code, bias-free, and random kernels); "
+      "inputs: all-max, all-min, sign-aligned and anti-aligned with "
       "each output channel's effective kernel, random lattice points; non-trivial = distinct (stream, family, "
       "weight/bias/activation quantizers, kernel shape); every tensor value is judged by Lean Val on the type "
       "the REAL QTools reported")
@@ -997,7 +1078,7 @@ def run(run: core.Run, tier: str):
     first = layers[0]
     k0, _ = eff_weights(first["layer"])
     first_is_input = b.items[0] is first or (b.items[0]["kind"] == "qact" and len(b.items) > 1 and b.items[1] is first)
-    x, tags = inputs_for(rng, b, (k0, first["cls"]) if first_is_input else None)
+    x, tags = inputs_for(rng, b, (expand_groups(k0, first.get("groups", 1)), first["cls"]) if first_is_input else None)
     run_layers(b, x)
     # ---- auto_po2 scales (concrete after the eager run) and the Lean nodes of the layers
     ni = 0
@@ -1050,7 +1131,8 @@ def run(run: core.Run, tier: str):
     key = (spec["stream"], spec["family"], label(b.src_spec) + (b.src_form or ""),
            tuple((it["kind"], it.get("cls"), label(it.get("wspec")), label(it.get("bspec")) if it.get("has_bias", True) else
                   "unused:" + label(it.get("unused_bspec")),
-                  label(it.get("aspec") or it.get("spec")), tuple(it.get("kshape", ()))) for it in b.items))
+                  label(it.get("aspec") or it.get("spec")), tuple(it.get("kshape", ())),
+                  "groups=%d" % it["groups"] if it.get("groups", 1) > 1 else None) for it in b.items))
     first_reports = None
     for route, is_inf, already in routes:
       saved = None
@@ -1187,7 +1269,7 @@ def run(run: core.Run, tier: str):
           meta = dict(base, site="preactivation", entry=acc_key, w_cls=wname, w_alpha=alpha, w_mode=wrec["mode"],
                       x_mode=xrec["mode"], m_mode=t["multiplier"]["mode"], m_is_po2=bool(t["multiplier"]["is_po2"]),
                       b_mode=(t["bias"]["mode"] if t["bias"] else None), n_terms=n_terms,
-                      n_is_pow2=(n_terms & (n_terms - 1)) == 0, cls=it["cls"])
+                      n_is_pow2=(n_terms & (n_terms - 1)) == 0, cls=it["cls"], groups=it.get("groups", 1))
           meta["_pre"] = pre
           meta["_x"] = xin
           meta["_k"] = k
@@ -1480,7 +1562,11 @@ def run(run: core.Run, tier: str):
       keyd.update({"entry": meta["entry"], "w_cls": meta["w_cls"], "w_alpha": meta["w_alpha"], "w_mode": meta["w_mode"],
                    "x_mode": meta["x_mode"], "m_mode": meta["m_mode"], "m_is_po2": meta["m_is_po2"],
                    "b_mode": meta["b_mode"], "n_is_pow2": meta["n_is_pow2"], "all_mostneg": allneg})
-      detail.update({"layer": meta["cls"], "n_terms": meta["n_terms"], "input_tag": tags[bi] if 0 <= bi < len(tags) else "?"})
+      detail.update({"layer": meta["cls"], "n_terms": meta["n_terms"], "input_tag": tags[bi] if 0 <= bi < len(tags) else "?",
+                     "groups": meta.get("groups", 1), "kernel_shape": [int(v_) for v_ in k.shape],
+                     "failing_input_flat": [float(v_) for v_ in xin[bi].ravel()[:64]] if bi >= 0 else None,
+                     "output_channel": co if bi >= 0 else None,
+                     "kernel_slice_flat": [float(v_) for v_ in kc.ravel()[:64]] if bi >= 0 else None})
     elif site == "activation":
       keyd.update({"cls": meta["cls"], "max_value_le1": meta["max_value_le1"]})
     elif site == "layer_output":
